@@ -144,7 +144,12 @@ func (r *validationResponseHandler) HandleValidationResponse(
 		// RFC 5861 §4: stale-if-error applies when it is present on the stored
 		// response or on the request; the failed reply (if any) has no say.
 		storedCC := ParseCCResponseDirectives(ctx.Stored.Data.Header)
-		if r.siep.CanStaleOnError(ctx.Freshness, storedCC, ctx.CCReq) {
+		// must-revalidate forbids serving the response once it is stale
+		// (RFC 9111 §5.2.2.2), and it may have become stale while the origin
+		// was being asked: what counts is the age now, not at lookup.
+		staleNow := SatAdd(ctx.Freshness.Age.Value, r.clock.Since(ctx.Freshness.Age.Timestamp)) >= ctx.Freshness.UsefulLife
+		if !(staleNow && storedCC.MustRevalidate()) &&
+			r.siep.CanStaleOnError(ctx.Freshness, storedCC, ctx.CCReq) {
 			// RFC 9111 §4.2.4 Serving Stale Responses
 			// RFC 9111 §4.3.3 Handling Validation Responses (5xx errors)
 			StripNoCacheFields(ctx.Stored.Data.Header, storedCC)
